@@ -69,7 +69,7 @@ Definition readfrom_op (a : list val) : val :=
 
 (* io.syncb <script> <bufio size>: Sync over the MODEL of bufio.Reader (Model/Bufio.v) over the scripted
    reader; goexec runs the real packet.Sync over the real bufio.NewReaderSize over the same script.
-   reply: [0 [off avail]] | [1 e [off avail]], avail = what r.Peek(16) hands out afterwards *)
+   reply: [0 [off next188]] | [1 e [off next188]], next188 = what io.ReadFull(r, 188 bytes) delivers afterwards *)
 Definition syncb_op (a : list val) : val :=
   match a with
   | [VL sc; VI size] =>
@@ -78,8 +78,8 @@ Definition syncb_op (a : list val) : val :=
     | Some s =>
       match Bufio.sync_raw (Z.to_nat size) s with
       | Ok (off, err, b') =>
-        match Bufio.peek_avail 16 b' with
-        | Ok av =>
+        match Bufio.read_full 188 b' with
+        | Ok (av, _, _) =>
           let obs := VL [vn off; VB av] in
           match err with
           | None => VL [VI 0%Z; obs]
